@@ -403,16 +403,16 @@ type RecBackend struct {
 	calls    map[string]int
 	// gates: the n-th connection presenting a client id can have its Terminate held back, or the return of
 	// its Dequeue held until the connection is closing — to steer the real goroutines into a chosen interleaving
-	perID     map[string][]*broker.Client
-	termGate  map[string]chan struct{} // "<id>/<n>" -> closed to release
-	deqGate   map[string]bool          // "<id>/<n>" -> hold a dequeued message until Closing()
-	deqAtGate map[string]bool          // a dequeued message is being held right now
-	gateOf    map[*broker.Client]string
-	authGate  map[string]chan struct{} // client id -> Authenticate returns only once released
-	authAt    map[string]bool          // a connection with the id is waiting at that gate
-	setupGate map[string]chan struct{} // client id -> Setup is entered only once released
-	willGate  map[string]chan struct{} // client id -> the will's Publish proceeds only once released
-	willAt    map[string]bool          // the cleanup of a connection with the id is waiting at that gate
+	perID       map[string][]*broker.Client
+	termGate    map[string]chan struct{} // "<id>/<n>" -> closed to release
+	deqGate     map[string]bool          // "<id>/<n>" -> hold a dequeued message until Closing()
+	deqAtGate   map[string]bool          // a dequeued message is being held right now
+	gateOf      map[*broker.Client]string
+	authGate    map[string]chan struct{} // client id -> Authenticate returns only once released
+	authAt      map[string]bool          // a connection with the id is waiting at that gate
+	setupGate   map[string]chan struct{} // client id -> Setup is entered only once released
+	willGate    map[string]chan struct{} // client id -> the will's Publish proceeds only once released
+	willAt      map[string]bool          // the cleanup of a connection with the id is waiting at that gate
 	restoreGate map[string]chan struct{} // client id -> Restore returns only once released
 	restoreAt   map[string]bool
 	deqSeen     map[*broker.Client]bool // first Dequeue call of the connection logged
